@@ -514,7 +514,67 @@ func (g *Gen) protectedStmt(d int) []L.Stmt {
 }
 
 func (g *Gen) multiAssign(d int) []L.Stmt {
-	switch g.n(3, "maform") {
+	switch g.n(5, "maform") {
+	case 3, 4:
+		// 1..4 distinct targets of every kind (locals, a field, a slot whose key is one of the locals, a global), fewer, as
+		// many or more expressions than targets, and expressions that report what they see: every expression and every key
+		// is evaluated before any store
+		id := strconv.Itoa(g.ctr)
+		g.ctr++
+		ma, mb, mt, rec := "ma"+id, "mb"+id, "mt"+id, "rec"+id
+		tpool := []L.Expr{name(ma), name(mb), field(name(mt), "f"), idx(name(mt), name(ma)), name("GM")}
+		nt := 1 + g.n(4, "nmatargets")
+		// a random subset in random order
+		var targets []L.Expr
+		used := map[int]bool{}
+		for len(targets) < nt {
+			i := g.n(len(tpool), "matarget")
+			if !used[i] {
+				used[i] = true
+				targets = append(targets, tpool[i])
+			}
+		}
+		epool := func() L.Expr {
+			switch g.n(9, "maexpr") {
+			case 0:
+				return call(name(rec), name(ma))
+			case 1:
+				return call(name(rec), name(mb))
+			case 2:
+				return call(name(rec), field(name(mt), "f"), name("GM"))
+			case 3:
+				return name(ma)
+			case 4:
+				return name(mb)
+			case 5:
+				return num(float64(5 + g.n(4, "malit")))
+			case 6:
+				return call(name(rec), name(ma), name(mb))
+			case 7:
+				return idx(name(mt), name(mb))
+			default:
+				return bin("+", name(ma), name(mb))
+			}
+		}
+		ne := nt + g.n(4, "maexprdelta") - 1
+		if ne < 1 {
+			ne = 1
+		}
+		var es []L.Expr
+		for i := 0; i < ne; i++ {
+			es = append(es, epool())
+		}
+		if ne > nt {
+			g.class("multi_assign_surplus_expressions")
+		}
+		g.class("multi_assign_mixed_targets")
+		return []L.Stmt{&L.DoStmt{Body: blk(
+			local([]string{ma, mb, mt}, num(1), num(2), tbl(kv(str("f"), num(3)), pos(str("one")), pos(str("two")))),
+			&L.LocalFuncStmt{Name: rec, Fn: fn(nil, true, blk(emit(str("rec"), &L.VarargExpr{}), ret(paren(&L.VarargExpr{}))))},
+			assign1(name("GM"), num(9)),
+			&L.AssignStmt{Targets: targets, Exprs: es},
+			emit(name(ma), name(mb), field(name(mt), "f"), idx(name(mt), num(1)), idx(name(mt), num(2)), idx(name(mt), num(5)), name("GM")),
+			assign1(name("GM"), &L.NilExpr{}))}}
 	case 0:
 		// swap two variables of the same kind
 		k := []Kind{KInt, KStr}[g.n(2, "swapkind")]
